@@ -113,13 +113,17 @@ func (c *vConn) drain() []hwebsocket.Msg {
 	return out
 }
 
+// sendQueue peeks at the number of queued messages without consuming them.
+func (c *vConn) sendQueue() []struct{} { return make([]struct{}, len(c.h.sendChan)) }
+
 func (w *vWorld) drainAll() {
 	for _, c := range w.conns {
 		c.drain()
 	}
 }
 
-func isType(m hwebsocket.Msg, t hagallpb.MsgType) bool { return m.Type == t }
+// isType compares by enum number: core and module message enums share one number space.
+func isType(m hwebsocket.Msg, t hagallpb.MsgType) bool { return m.Type != nil && int32(m.Type.Number()) == int32(t) }
 
 // join sends a join request for session id sid ("" = create) and records the answer.
 // It returns the messages the joiner received.
